@@ -314,7 +314,8 @@ class Gen:
         for j in range(r.choice([1, 2, 3])):
             it = self.struct(f"S{idx}_{j}", named, depth) if r.random() < 0.55 else self.enum(f"E{idx}_{j}", named, depth)
             if it["kind"] == "struct" and it["shape"] == "named" and it["fields"]:
-                objs = [t for t in named if t.get("_obj")]
+                # known finding C03-inlined-default: inlining OR flattening a generic type drags the defaults of its parameters along as imports
+                objs = [t for t in named if t.get("_obj") and not any(g.get("default") for i2 in items if i2["name"] == t["id"] for g in i2.get("generics", []))]
                 if objs and r.random() < 0.5:
                     it["fields"].append({"name": "flat", "ty": clean(r.choice(objs)), "attrs": {"flatten": True}})
                     self.tag("field:flatten")
